@@ -221,6 +221,11 @@ func (data stageData) getStageFileList(atoms atom.AtomSlice) (*stage.FileList, e
 			return nil, err
 		}
 	}
+	// Entries added (or parent directories omitted) by the user lists need their parents, too
+	err = fileList.AddMissingStageDirs()
+	if err != nil {
+		return nil, err
+	}
 
 	fileList.Finalize()
 	return fileList, err
